@@ -61,6 +61,19 @@ Definition push_raw (st : pstate) (hs : list hentry) : pstate :=
 Definition bump (st : pstate) : pstate :=
   mkSt (S (tidx st)) (skip st) (user_message st) (bot_message st) (trig_in st) (trig_out st) (hist st) (raw st).
 
+(* generation options of ONE call (GenerationOptions.rails.input / .output; the other categories
+   stay enabled in these models, see C16): they restrict the rails that call runs.  They are an
+   argument of the call - the persistent state carries none *)
+Record topts := mkOpts { o_in : bool; o_out : bool }.
+Definition no_opts : topts := mkOpts true true.
+
+(* the configuration a call with options `o` effectively runs: llm_flows.co tests
+   `$generation_options is None or $generation_options.rails.input` (resp. `.output`) exactly
+   where it tests `$config.rails.input.flows` (resp. output) *)
+Definition eff (cf : cfg) (o : topts) : cfg :=
+  mkCfg (if o_in o then irails cf else []) (if o_out o then orails cf else [])
+        (dialog cf) (exceptions cf) (passthrough cf).
+
 (* what the dialog flows dictate after the user intent is known *)
 Inductive dstep :=
 | DBot (bot_intent : string)     (* a dialog flow dictates `bot <intent>` *)
@@ -172,6 +185,16 @@ Section V1.
     match us with
     | [] => []
     | u :: us' => let r := turn_v1 cf st u in r :: conv_v1 cf (fst (fst r)) us'
+    end.
+
+  (* a call with generation options, and a conversation whose calls each bring their own options *)
+  Definition turn_v1_opts (cf : cfg) (o : topts) (st : pstate) (u : text) : pstate * list tev * reply :=
+    turn_v1 (eff cf o) st u.
+
+  Fixpoint conv_v1_opts (cf : cfg) (st : pstate) (ous : list (topts * text)) : list (pstate * list tev * reply) :=
+    match ous with
+    | [] => []
+    | (o, u) :: ous' => let r := turn_v1_opts cf o st u in r :: conv_v1_opts cf (fst (fst r)) ous'
     end.
 
   Definition final_state (st : pstate) (rs : list (pstate * list tev * reply)) : pstate :=
